@@ -601,7 +601,7 @@ impl Case {
         if h >= mu.expiry {
             self.model.c.expiry_errors += 1;
             match &reply {
-                Err(e) if e.code() == Code::Unauthenticated && e.msg().contains(&format!("expired at {}", mu.expiry)) => self.expect_unchanged(&snap, &["C09"], &ctx),
+                Err(e) if e.code() == Code::Unauthenticated && e.msg().contains(&format!("expired at {}", mu.expiry)) => self.expect_unchanged(&snap, &["C09", "C06"], &ctx),
                 other => self.v(viol(&["C09"], "C09:add-after-expiry", format!("{ctx}: height {h} >= expiry {}, expected a subscription-expired error stating the expiry, got {:?}", mu.expiry, other.as_ref().map(|r| r.start_block).map_err(|e| e.msg().to_string())))),
             }
             self.finish_request(s, snap, BTreeMap::new(), &["C06"], &ctx);
